@@ -391,3 +391,24 @@ def weighted_helper_forms(ctx, rid):
         f = ctx.ix.func(WT_UTILS, name, rid)
         text = "; ".join(canon_lines(f.node, True, True))
         ctx.form(rid, f, f.node, text, confirmed, essential, f"{name}: documented body", bad, construct=f"def {name}")
+
+
+# ---------------------------------------------------------------- memoised readers of external state
+MEMO_DECORATORS = {"lru_cache", "cache", "cached_property", "memoize", "memoized"}
+IO_CALLS = {"open", "json.load", "json.loads", "pd.read_csv", "pandas.read_csv", "pd.read_json", "np.load", "np.loadtxt", "np.genfromtxt", "torch.load", "pickle.load", "os.path.getmtime", "os.stat", "os.listdir"}
+IO_METHODS = {"read_text", "read_bytes", "open", "read", "readlines"}
+
+
+def memoised_readers(ctx):
+    """[(function, decorator node, I/O call node)]: functions decorated with a memoising decorator whose body reads the file system.
+    Whatever the key of the memo (a path, a modification time ...), what they return afterwards is what the file held at the first call."""
+    out = []
+    for f in ctx.ix.iter_funcs():
+        decos = [d for d in getattr(f.node, "decorator_list", []) if (U(d.func) if isinstance(d, ast.Call) else U(d)).split(".")[-1] in MEMO_DECORATORS]
+        if not decos:
+            continue
+        for c in ast.walk(f.node):
+            if isinstance(c, ast.Call) and (U(c.func) in IO_CALLS or (isinstance(c.func, ast.Attribute) and c.func.attr in IO_METHODS and U(c.func.value) not in ("self",))):
+                out.append((f, decos[0], c))
+                break
+    return out
